@@ -344,7 +344,7 @@ def _(f, a):
     return s
 
 
-@op('reindex', A(i=_pos(), j=_pos(), v=_fill(), ax=st.integers(0, 2)))
+@op('reindex', A(i=_pos(), j=_pos(), v=_fill(), ax=st.integers(0, 2), ce=st.booleans()))
 def _(f, a):
     idx = list(f.index)
     cols = list(f.columns)
@@ -356,10 +356,10 @@ def _(f, a):
     if isinstance(f.columns, sf.IndexHierarchy):
         nc = sf.IndexHierarchy.from_labels(cols[a['j'] % (len(cols) + 1):]) if cols[a['j'] % (len(cols) + 1):] else None
     if a['ax'] == 0:
-        return f.reindex(index=ni, fill_value=a['v'])
+        return f.reindex(index=ni, fill_value=a['v'], check_equals=a.get('ce', True))
     if a['ax'] == 1:
-        return f.reindex(columns=nc, fill_value=a['v'])
-    return f.reindex(index=ni, columns=nc, fill_value=a['v'])
+        return f.reindex(columns=nc, fill_value=a['v'], check_equals=a.get('ce', True))
+    return f.reindex(index=ni, columns=nc, fill_value=a['v'], check_equals=a.get('ce', True))
 
 
 @op('relabel', A(how=st.sampled_from(['func', 'auto', 'list'])))
@@ -680,7 +680,7 @@ def _(s, a):
     return s.assign.iloc[k](np.arange(n))
 
 
-@sop('reindex', A(i=_pos(), v=_fill()))
+@sop('reindex', A(i=_pos(), v=_fill(), ce=st.booleans()))
 def _(s, a):
     idx = list(s.index)
     ni = idx[a['i'] % (len(idx) + 1):][::-1]
@@ -691,7 +691,7 @@ def _(s, a):
         ni = sf.IndexHierarchy.from_labels(ni)
     elif not isinstance(s.index, sf.IndexDate):
         ni = ni + ['__new__']
-    return s.reindex(ni, fill_value=a['v'])
+    return s.reindex(ni, fill_value=a['v'], check_equals=a.get('ce', True))
 
 
 @sop('relabel_rename', A(how=st.sampled_from(['func', 'auto']), n=st.sampled_from(['x', None])))
